@@ -169,7 +169,15 @@ int main(int argc, char** argv) {
             std::string content;
             const char* hashes[3] = {"aaaa", "bbbb", "cccc"};
             size_t i = 0;
-            for (auto& n : doc->at("names").a) content += std::string(hashes[i++]) + "  " + n->s + "\n";
+            for (auto& n : doc->at("names").a) {
+                const char* h = hashes[i++];
+                if (n->s == "<blank>")
+                    content += (i % 2 ? "\n" : "   \n");          // a line that lists nothing
+                else if (n->s == "<onecol>")
+                    content += "--------\n";
+                else
+                    content += std::string(h) + "  " + n->s + "\n";
+            }
             auto got = parseChecksum(content, "X.tar.gz");
             std::string g = got ? *got : "none";
             if (g != doc->at("expect").s)
